@@ -298,7 +298,7 @@ def gen_concurrent_clients(seed, nclients, nops):
     r = random.Random(seed * 2654435761 + 99)
     progs = []
     for cl in range(nclients):
-        tag = b"%d" % (cl % 10)
+        tag = b"%02d" % cl          # every client its own keys; same length for all clients
         p = []
         for i in range(nops):
             x = r.randrange(10)
